@@ -93,6 +93,11 @@ pub fn to_value(v: &J, handles: &[jbk::Bound<jbk::EntryIdx>]) -> jbk::Value {
         jbk::Value::Unsigned(u.as_u64().expect("u64"))
     } else if let Some(s) = v.get("s") {
         jbk::Value::Signed(s.as_i64().expect("i64"))
+    } else if let Some(u) = v.get("uw") {
+        // the same value given lazily (Word): read at finalisation time
+        jbk::Value::UnsignedWord(u.as_u64().expect("u64").into())
+    } else if let Some(s) = v.get("sw") {
+        jbk::Value::SignedWord(s.as_i64().expect("i64").into())
     } else if let Some(a) = v.get("a") {
         let bytes: Vec<u8> = a
             .as_array()
